@@ -8,6 +8,32 @@ COMMON_TRUSTED = [
 ]
 
 PROPS = {
+    "C13": {
+        "lean": ["UgoVerif.Props.C13"],
+        "gen": ["SymFacts.lean"],
+        "streams": ["symops", "disable"],
+        "required_theorems": ["resolve_disabled", "resolve_disabled_undeclared", "fork_keeps_disabled",
+                              "module_table_keeps_disabled", "evaluator_table_disabled", "shadow_then_resolve",
+                              "shadow_then_resolve_nested", "eval_fragments_persist", "no_getbuiltin_partial",
+                              "fact_resolve_guard", "fact_compileModule_copies", "fact_evaluator_copies",
+                              "fact_getbuiltin_sites", "fact_builtin_scope_sites", "fact_newSymbolTable_sites",
+                              "fact_disable_evicts", "fact_builtins_distinct"],
+        "trusted": [
+            "hand model Model/Sym.lean (symbol_table.go statement by statement on a heap of tables; module-table lines of compileModule; first lines of optimizerEval.resetCompiler) tied by stream `symops` through the verif hooks of symbol_table_verif.go",
+            "goextract symfacts.go: prints Go statements/conditions with go/printer; the decide facts compare them with the expected text",
+            "stream `disable`: the property's own oracle on the implementation (compile errors, GETBUILTIN scan of every CompiledFunction, instrumented BuiltinObjects at compile and run time)",
+        ],
+        "assumptions": [
+            "no_getbuiltin is proved as a reduction (no_getbuiltin_partial): the compiler is abstracted as a trace of symbol-table calls on its own family of tables plus compileIdent/destructuring emissions (CompilerDiscipline); the compile* functions themselves are not modelled",
+            "*Symbol pointers are modelled by value (mutation of Assigned/Constant/Index through a pointer is outside the model); Go int is Int",
+            "a reused evaluator table is represented by a fresh one in the compiler trace (justified by evaluator_table_disabled, which covers both)",
+            "Bytecode produced by other means than the compiler (hand-made or decoded Bytecode) is out of scope",
+        ],
+        "partial": [
+            {"theorem": "no_getbuiltin_partial", "full_statement": "C13_full",
+             "missing": "a Lean model of compile* establishing CompilerDiscipline (that every GETBUILTIN of the Bytecode comes from compileIdent's BUILTIN case or from destructuring, and that the compiler only uses tables of its family); pinned by the regenerated facts fact_getbuiltin_sites, fact_newSymbolTable_sites, fact_builtin_scope_sites and tested by stream `disable`"},
+        ],
+    },
     "C15": {
         "lean": ["UgoVerif.Props.C15"],
         "gen": ["Numeric.lean", "NumericSimp.lean"],
